@@ -706,7 +706,13 @@ class VcfZarrWriter:
         logger.info(f"Finalising {partition_index} at {final_path}")
         if final_path.exists():
             logger.warning(f"Removing existing partition at {final_path}")
-            shutil.rmtree(final_path)
+            # Move the stale partition out of the way atomically before deleting
+            # so that an interrupted delete is never mistaken for a complete one.
+            stale_path = self.partitions_path / f"stale_p{partition_index}"
+            if stale_path.exists():
+                shutil.rmtree(stale_path)
+            os.rename(final_path, stale_path)
+            shutil.rmtree(stale_path)
         os.rename(partition_path, final_path)
 
     def init_partition_array(self, partition_index, name):
